@@ -497,6 +497,8 @@ def refs_found(n1: int, n2: int, two: bool, a: int, b: int) -> bool:
     """
     pre: 0 <= n1 < len(_REF_NAMES) and 0 <= n2 < len(_REF_NAMES)
     pre: 0 <= a < len(_SEP) and 0 <= b < len(_SEP)
+    pre: two or n2 == 0
+    pre: (not two) or (a == 0 and b == 0)
     pre: R.env_int("VP_K") is None or n1 == R.env_int("VP_K")
     post: _
     """
